@@ -59,6 +59,9 @@ def c09(ctx):
     dml.cap_panic_guard(ctx)
     from .rules import loops
     loops.run(ctx, entries)
+    # the justifications of CodePage::encoding()'s unreachable!() arm and of the encode loop's progress rest on these rules
+    from .rules import codepage
+    codepage.run(ctx)
     ctx.assume(EXT_ASSUME)
     return ctx.finish(explanation="panic-edge inventory over MIR of msi and msi_ffi, reachability from every exported function; "
                       "each site discharged by a guard rule, justified, or reported")
